@@ -73,4 +73,12 @@ def bootstrap (signal : Option St) : St :=
   | some s => s
   | none   => .failed
 
+/-- `Agent_0.finalize` as the two things that matter to the bootstrapper: the cause is written to killme.signal, the final
+    notification is pushed (`pushFails`: the channel is closed under it - `stop()` closes the session from another thread
+    while the worker runs `finalize()` - and the exception ends finalize).  With `writesFirst` (the order read from the
+    source by the translator) the file exists whatever happens to the push; otherwise only when the push went through. -/
+def signalAfterFinalize (writesFirst pushFails : Bool) (c : Cause) : Option St :=
+  if writesFirst then some (finalState c)
+  else if pushFails then none else some (finalState c)
+
 end RPVerif.AgentCause
